@@ -61,7 +61,26 @@ def initial_renamed():
     return _INIT2
 
 
-INITS = {'std': initial, 'renamed': initial_renamed}
+_INIT3 = None
+
+
+def initial_missing():
+    """The same typed input where the second resource declares its own missing-value tokens and its rows still carry them
+    (conforming: 'NA' in an integer column of that resource is a null)."""
+    global _INIT3
+    if _INIT3 is None:
+        st = copy.deepcopy(initial())
+        st.desc['resources'][1]['schema']['missingValues'] = ['', 'NA']
+        st.rows[1][0]['k'] = 'NA'
+        st.rows[1][3]['n2'] = 'NA'
+        _INIT3 = core.State(st.desc, st.rows)
+    return _INIT3
+
+
+INITS = {'std': initial, 'renamed': initial_renamed, 'missing': initial_missing}
+# steps that carry rows of the second resource into another (or the same) resource
+SIGMA_MISSING = ['concat_k', 'concat_mapped', 'concat_first_two', 'validate', 'sort_rows', 'delete_resource_first', 'dump_to_path',
+                 'deduplicate', 'update_package']
 # steps that do not address a resource by name (usable on the renamed input)
 SIGMA_NAMELESS = ['iterable', 'acf_const', 'add_field_int', 'validate', 'sort_rows', 'update_package',
                   'select_fields', 'dump_to_path', 'deduplicate']
@@ -143,6 +162,7 @@ SYMS = {
     'concat_first_two': {'op': 'flow', 'positions': [70, 71],
                          'steps': [S('set_type', 'm', type='number', resources=None),
                                    S('concatenate', {'i': [], 'm': [], 'txt': ['s', 's2']}, {'name': 'c12'}, resources=['res_1', 'res_2'])]},
+    'concat_k': S('concatenate', {'i': [], 'k': [], 'n2': []}, {'name': 'ck'}, resources='res_2'),
     'concat_mapped': S('concatenate', {'i': [], 'num': ['n2', 'k']}, {'name': 'cm'}, resources='res_2'),
     'join_int': S('join', 'res_1', ['i'], 'res_2', ['i'], join_fields('m'), source_delete=False),
     'join_num': S('join', 'res_1', ['i'], 'res_2', ['i'], join_fields('n'), source_delete=True),
@@ -169,6 +189,11 @@ SYMS = {
                                                             'm_min': {'name': 'm', 'aggregate': 'min'}}),
     'duplicate': S('duplicate', 'res_1'),
     'duplicate_end': S('duplicate', 'res_2', 'dup2', 'dup2.csv', duplicate_to_end=True),
+    'duplicate_bs1': S('duplicate', 'res_1', 'res_1_b1', 'b1.csv', batch_size=1),
+    'set_primary_key_i': S('set_primary_key', ['i'], resources=None),
+    'concat_i_s': {'op': 'flow', 'positions': [72, 73],
+                   'steps': [S('set_type', 'm', type='number', resources=None),
+                             S('concatenate', {'i': [], 'm': []}, {'name': 'cis'})]},
     'delete_resource': S('delete_resource', 'res_2'),
     'delete_resource_first': S('delete_resource', 'res_1'),     # the resources behind it must still get their own rows
     'sort_rows': S('sort_rows', '{m}', reverse=True),
@@ -210,7 +235,7 @@ def check_path(path, init='std'):
             return [('rejected-well-typed', 'Flow(%s) over schema-conforming data fails: %s: %s' %
                      (path[0], core.exc_sig(e0), str(e0)[:160].replace('\n', ' ')))], 'rejected', False
         return [], 'rejected', False
-    label = 'Flow(%s%s)' % ('<resources named res_3, res_4>, ' if init == 'renamed' else '', ', '.join(path))
+    label = 'Flow(%s%s)' % ({'renamed': '<resources named res_3, res_4>, ', 'missing': '<res_2 declaring missingValues ["", "NA"] and carrying NA>, '}.get(init, ''), ', '.join(path))
     viol = e1.invariant(res[1], label)
     rr = run_path(path, 'results', init)
     if rr[0] == 'exc':
@@ -246,7 +271,7 @@ def shrink(path, oracle, init='std'):
 def explore(task):
     prefix, depth = task['prefix'], task['depth']
     init = task.get('init', 'std')
-    sigma = SIGMA if init == 'std' else SIGMA_NAMELESS
+    sigma = {'std': SIGMA, 'renamed': SIGMA_NAMELESS, 'missing': SIGMA_MISSING}[init]
     tagp = '' if init == 'std' else init + ':'
     out = {'n': 0, 'keys': [], 'outcomes': {}, 'viol': [], 'states': 0, 'transitions': 0, 'traces': 0}
     for i in range(1, len(prefix)):
@@ -288,6 +313,7 @@ def run(run):
         tasks = [{'prefix': [s], 'depth': 1} for s in SIGMA] + \
                 [{'prefix': [s1, s2], 'depth': 3} for s1 in SIGMA for s2 in SIGMA]
     tasks += [{'prefix': [s], 'depth': depth, 'init': 'renamed'} for s in SIGMA_NAMELESS]
+    tasks += [{'prefix': [s], 'depth': depth, 'init': 'missing'} for s in SIGMA_MISSING]
     k = run.seed % len(tasks)
     tasks = tasks[k:] + tasks[:k]
     for res in run.map(explore, tasks, chunksize=1, limit=1800):
